@@ -196,7 +196,10 @@ class Minimiser:
                         o = dict(op)
                         del o[k]
                         cands.append(o)
-                if op['op'] in CALL_KINDS:
+                meta_mode = (op.get('c13') or {}).get('mode', 'positions')
+                if op['op'] in CALL_KINDS and meta_mode == 'positions' and 'c20' not in op:
+                    # (an abbreviation that carries generator meta data is not shrunk as text:
+                    # the meta data describes the tree it was printed from)
                     abbr = op['abbr']
                     n = len(abbr)
                     size = max(1, n // 2)
